@@ -85,7 +85,7 @@ def discharge(obligations, tier="quick", workers=None, progress=None):
     todo = [(i, ob) for i, ob in enumerate(obligations) if ob.result is None]
     # deterministic resource limit first; the wall-clock cap is only a safety net sized well above it
     rlimit = 60_000_000 if tier == "quick" else 300_000_000
-    timeout_ms = 60_000 if tier == "quick" else 600_000
+    timeout_ms = 180_000 if tier == "quick" else 900_000
     cvc5_timeout = 10 if tier == "quick" else 90
     both = tier == "thorough"
     jobs = []
